@@ -650,9 +650,9 @@ def gen_history(rng):
     bpool = [rng.choice(gen.BYTES_POOL) for _ in range(4)] + [gen.gen_random_bytes(rng) for _ in range(2)] + gen.gen_family_pool(rng, 4)
     att_share = rng.choice([0.1, 0.5, 0.9])
     mtx = rng.sample(gen.ASM_MEMTXT, 3)
-    lpool = [gen.gen_asm_line(rng, mtx) for _ in range(8)]
+    lpool = [gen.gen_asm_line(rng, mtx) for _ in range(6)] + gen.gen_line_family(rng, False, 4)
     atx = rng.sample(gen.ATT_OPTXT, 3)
-    apool = [gen.gen_att_line(rng, atx) for _ in range(8)] + ['ret', 'nop', 'scasb', 'cmpxchgl %ecx, (%edx)']
+    apool = [gen.gen_att_line(rng, atx) for _ in range(6)] + ['ret', 'nop', 'scasb', 'cmpxchgl %ecx, (%edx)'] + gen.gen_line_family(rng, True, 4)
     def pick_expr():
         if expr_results and rng.random() < ref_p:
             return {'ref': rng.choice(expr_results)}
